@@ -19,7 +19,7 @@ import time
 from . import ROOT, WORK, known, setup_env
 from .worker import load_prop
 
-EVID = os.path.join(ROOT, "evidence")
+EVID = os.environ.get("VERIF_EVIDENCE_DIR") or os.path.join(ROOT, "evidence")   # override: development runs against a scratch tree
 REPLAYS = os.path.join(ROOT, "replays")
 
 
